@@ -150,7 +150,8 @@ var propSpecs = map[string]*PropSpec{
 	"C34": {
 		Patterns:    []string{"./..."},
 		Level:       "proof",
-		Explanation: "placeholder",
+		Explanation: "javascript.MinifyCSS under an accounting contract in safe mode: every index and slice is in bounds for every input; at the head of the main loop every byte of the input before the cursor has been copied to the output, in order and unchanged, or was legitimately left out -- a comment up to its first closing mark, a run of white space, a semicolon that another semicolon follows or that only white space separates from a closing brace; the only bytes inserted are one space in place of a run of white space (exactly when the run is not at the start, not before a delimiter and not after an unescaped delimiter or colon) and an empty comment in place of a comment (exactly when neither neighbour ends or starts a token by itself); escape pairs, string contents and unquoted url( ) tokens are copied whole; cssIsWS, cssIsDelim, cssEndsToken, cssStartsToken are verified against the sets the contract names",
+		TrustedBase: []string{"which bytes form comments, strings, escapes and url( ) tokens is decided by the code's own branch structure; the independent CSS Syntax Level 3 tokenizer is applied only by the bounded corpus", "CSS Syntax Level 3: white space next to { } ; , > and after : never separates tokens or forms a combinator; a semicolon before } or another ; is redundant", "slices have value semantics in the engine: that MinifyCSS does not write into its input is checked by the bounded corpus only", "strings are terminated on their line (an unterminated string is outside the quantifier)"},
 		Extra:       c34Extra,
 	},
 	"C07": {
